@@ -434,7 +434,8 @@ Section DeliverProofs.
     destruct (deliver_cases s raw) as [[Ha [e [t Hf]]]|[Ha [Hn Hs]]].
     - destruct Hf as [H1 [H2 [H3 [_ [_ [H6 H7]]]]]].
       unfold verify in H2.
-      apply andb_true_iff in H2 as [H2 Hsig]. apply andb_true_iff in H2 as [Hlen _].
+      apply andb_true_iff in H2 as [H2 Hsig]. apply andb_true_iff in H2 as [H2 _].
+      apply andb_true_iff in H2 as [H2 _]. apply andb_true_iff in H2 as [Hlen _].
       destruct (prepare (SEP C) (txc C) None (chain C)) as [rc|] eqn:Hp; [|discriminate].
       exists e, t, rc. apply N.eqb_eq in Hlen.
       repeat split; try assumption.
@@ -451,6 +452,23 @@ Section DeliverProofs.
   Proof.
     intros Hnc Hna. destruct (deliver_cases s raw) as [[Ha _]|[_ [_ Hs]]]; [congruence|].
     apply Hs. exact Hnc.
+  Qed.
+
+  (* what "authentic" requires of the key: with AllowSmallOrderA = false a
+     small-order public key is never the sender of an authenticated transaction,
+     whatever the signature predicate says *)
+  Lemma small_order_key_never_authenticated s raw :
+    allow_small_A C = false ->
+    authenticated (snd (deliver C s raw)) = true ->
+    exists e, dec_env C raw = Some e /\ small_order_A C (e_pk e) = false /\
+              (allow_small_R C = false -> small_order_R C (e_sig e) = false).
+  Proof.
+    intros Hopt Ha. destruct (deliver_cases s raw) as [[_ [e [t Hf]]]|[X _]]; [|congruence].
+    destruct Hf as [H1 [H2 _]]. exists e. split; [exact H1|].
+    unfold verify in H2. apply andb_true_iff in H2 as [H2 _].
+    apply andb_true_iff in H2 as [H2 HR]. apply andb_true_iff in H2 as [_ HA].
+    rewrite Hopt in HA. cbn [orb] in HA. apply negb_true_iff in HA. split; [exact HA|].
+    intros HoR. rewrite HoR in HR. cbn [orb] in HR. apply negb_true_iff in HR. exact HR.
   Qed.
 
   Lemma restart_is_identity s : step C s ORestart = s.
